@@ -74,6 +74,7 @@ fn letter() -> impl Parser<StringView, Output = char, Error = ParserError> {
     any_token_of!(TokenType::Identifier).and_then(|token| {
         token
             .try_as_single_char()
+            .map(|ch| ch.to_ascii_uppercase())
             .ok_or(ParserError::expected("letter").to_fatal())
     })
 }
